@@ -179,6 +179,13 @@ def _cases():
     case("is_same_size-q-plain", "is_same_size", lambda h: ([h.q(two(h)), h.plain(h.dims(2, "e"))], {}), rel="bool", axes=(None,))
     # copy_
     case("copy_-q-from-q", "copy_", lambda h: (list(two_any_scale(h)), {}), moves=True)
+    def q_and_q_other_dtype(h):
+        ds = two(h)
+        a = h.q(ds)
+        h.n += 1
+        sc = new_input(h.E, f"Q{h.n}_s16", "float16", inv.keepdim_shape(list(ds), h.axis))
+        return a, h.q(ds, scale=sc)
+    case("copy_-q-from-q-other-dtype", "copy_", lambda h: (list(q_and_q_other_dtype(h)), {}), moves=True)
     case("copy_-plain-from-q", "copy_", lambda h: ((lambda ds: [h.plain(ds), h.q(ds)])(two(h)), {}), axes=(None,))
     # rescaling
     c = z3.Real("c")
